@@ -76,7 +76,8 @@ func ruleC02_7(c *Ctx) {
 		bs := fn.Params[1]
 		okTail := false
 		var at ssa.Instruction
-		for _, pb := range p.callsIn(fn, pushBack) {
+		// (the loop may live in a helper `pushBackFrom(bs, from)` called with from = pos+1: each call site is looked at)
+		p.virtualCalls(fn, []*ssa.Function{pushBack}, func(pb ssa.CallInstruction) {
 			arg := pb.Common().Args[1]
 			if ld, ok := arg.(*ssa.UnOp); ok {
 				if ia, ok := ld.X.(*ssa.IndexAddr); ok && strip(ia.X) == ssa.Value(bs) {
@@ -84,22 +85,26 @@ func ruleC02_7(c *Ctx) {
 						// pos starts at (index of the split element)+1 and steps by one up to len(bs)
 						start, step := false, false
 						for _, e := range ph.Edges {
-							if bo, ok := e.(*ssa.BinOp); ok && bo.Op == token.ADD && isOne(bo.Y) {
-								if bo.X == ssa.Value(ph) {
-									step = true
-								} else if _, isPhi := bo.X.(*ssa.Phi); isPhi {
+							if bo, ok := e.(*ssa.BinOp); ok && bo.Op == token.ADD && isOne(bo.Y) && bo.X == ssa.Value(ph) {
+								step = true
+								continue
+							}
+							if bo, ok := strip(e).(*ssa.BinOp); ok && bo.Op == token.ADD && isOne(bo.Y) {
+								if _, isPhi := strip(bo.X).(*ssa.Phi); isPhi && strip(bo.X) != ssa.Value(ph) {
 									start = true
 								}
 							}
 						}
 						if start && step {
 							okTail = true
-							at = pb.(ssa.Instruction)
+							if li := lift(pb.(ssa.Instruction), fn); li != nil {
+								at = li
+							}
 						}
 					}
 				}
 			}
-		}
+		})
 		c.check(okTail, "elastic.Buffer.Writev: remaining elements follow into the list in order", posOr(c, at, fn), "for pos++; pos < len(bs); pos++ { PushBack(bs[pos]) }",
 			"after the element that straddles ring and list, the remaining elements are not appended to the list one by one from the next index: elements are skipped or repeated")
 	}
@@ -234,6 +239,67 @@ func ruleC12_3(c *Ctx) {
 			sl := in
 			nSl++
 			gs := guardsAt(blk)
+			delegated := false
+			// `bs, err := b.PeekN(n); if err != nil { return }`: on err == nil the sibling's own (checked) comparison holds
+			for _, g := range append([]Guard{}, gs...) {
+				x, op, y, ok := cmpGuard(g)
+				if !ok || op != token.EQL || !isNilConst(y) {
+					continue
+				}
+				ex, ok := x.(*ssa.Extract)
+				if !ok {
+					continue
+				}
+				call, ok := ex.Tuple.(*ssa.Call)
+				if !ok {
+					continue
+				}
+				sib := call.Call.StaticCallee()
+				if sib == nil || sib == fn || (sib != p.Method(pkgCodec, "Buffer", "ReadN") && sib != p.Method(pkgCodec, "Buffer", "PeekN")) {
+					continue
+				}
+				if len(call.Call.Args) < 2 || strip(call.Call.Args[0]) != ssa.Value(fn.Params[0]) || strip(call.Call.Args[1]) != n {
+					continue
+				}
+				var extra []Guard
+				withBinding(sib, call.Call.Args, func() {
+					var sel []retCase
+					for _, rcase := range returnCases(sib, ex.Index) {
+						if !isNilConst(rcase.val) {
+							nonNil := false
+							for _, f := range rcase.facts {
+								if fx, fop, fy, ok := cmpGuard(f); ok && fop == token.NEQ && isNilConst(fy) && fx == rcase.val {
+									nonNil = true
+								}
+							}
+							if nonNil {
+								continue
+							}
+						}
+						sel = append(sel, rcase)
+					}
+					for _, f := range intersectFacts(sel) {
+						extra = append(extra, f)
+						if fx, fop, fy, ok := cmpGuard(f); ok && fop == token.EQL && isNilConst(fy) {
+							extra = append(extra, nilOutcomeFacts(fx, true)...)
+						}
+					}
+					// decide under the binding: the sibling's n is this function's n
+					for _, f := range extra {
+						x, op, y, ok := cmpGuard(f)
+						if !ok {
+							continue
+						}
+						if strip(x) == n && (op == token.LEQ || op == token.LSS) && !dependsOnN(y) {
+							delegated = true
+						}
+						if strip(y) == n && (op == token.GEQ || op == token.GTR) && !dependsOnN(x) {
+							delegated = true
+						}
+					}
+				})
+				gs = append(gs, extra...)
+			}
 			okG := guardHas(gs, func(g Guard) bool {
 				x, op, y, ok := cmpGuard(g)
 				if !ok {
@@ -248,7 +314,7 @@ func ruleC12_3(c *Ctx) {
 				}
 				return false
 			})
-			c.check(okG, "codec.Buffer."+m+": length checked before slicing", c.at(sl), "guarded by n <= remaining (n itself compared, no arithmetic on n)",
+			c.check(okG || delegated, "codec.Buffer."+m+": length checked before slicing", c.at(sl), "guarded by n <= remaining (n itself compared, no arithmetic on n)",
 				"the buffer is sliced with a bound computed from the client-supplied length n without a guard that compares n itself with the number of bytes left: with n close to the maximum integer the sum wraps negative, the check passes and the slice expression panics (no recover: the proxy exits)", withGuards(gs))
 		})
 		if nSl == 0 {
